@@ -6,6 +6,7 @@ import (
 	"os"
 	"sort"
 	"strings"
+	"sync"
 	"sync/atomic"
 	"time"
 
@@ -485,8 +486,107 @@ func c05Desc(evs []c05Ev, getMID int32) string {
 // given - sections of different message IDs commute (Dedup/Conc.v), and with more than one request all
 // requests are confirmable, so that no reply carries an ID drawn from the connection's own counter.
 func runC05Concurrent(reqs []c05Ev, copies []int, getMID int32, dtls bool) (string, bool) {
-	mc := newMemConn(memConnOpts{getMID: getMID, queueSize: 16, maxRetransmit: 4, perMessageGoroutine: true, dtls: dtls})
+	return runC05ConcurrentM(reqs, copies, getMID, dtls, "")
+}
+
+// c05YieldCache is a response cache supplied by the application (client.WithResponseMessageCache): the
+// connection's own in-memory cache (udp/client.messageCache: marshalled reply in a pkg/cache.Cache, LoadOrStore,
+// ExchangeLifetime) whose first Store takes a while - it returns only when every copy of the request holds or
+// waits for the per-message-ID lock (the storing one included), or when some copy has consulted the cache (Load
+// of the same key) since the Store began. On an implementation that keeps the lock until the reply is stored all other copies wait for the
+// lock, so the Store returns at once (mode "w": they were waiting already) or as soon as the copies that arrive
+// during the Store (mode "a") queue up behind the lock. The 3 s limit can only let the Store finish early, which
+// an implementation that satisfies the property cannot notice.
+type c05YieldCache struct {
+	c       *cache.Cache[string, []byte]
+	mu      sync.Mutex
+	loads   map[string]int
+	yielded bool
+	storing chan string          // the first Store announces its key here
+	parked  func(key string) int // how many goroutines hold or wait for the lock of that key
+	need    int                  // the number of copies of the request
+}
+
+func (m *c05YieldCache) Load(key string, msg *pool.Message) (bool, error) {
+	m.mu.Lock()
+	m.loads[key]++
+	m.mu.Unlock()
+	el := m.c.Load(key)
+	if el == nil {
+		return false, nil
+	}
+	if raw := el.Data(); len(raw) > 0 {
+		if _, err := msg.UnmarshalWithDecoder(coder.DefaultCoder, raw); err != nil {
+			return false, err
+		}
+		return true, nil
+	}
+	return false, nil
+}
+
+func (m *c05YieldCache) Store(key string, msg *pool.Message) error {
+	raw, err := msg.MarshalWithEncoder(coder.DefaultCoder)
+	if err != nil {
+		return err
+	}
+	cp := make([]byte, len(raw))
+	copy(cp, raw)
+	m.mu.Lock()
+	first := !m.yielded
+	m.yielded = true
+	loads0 := m.loads[key]
+	m.mu.Unlock()
+	if first {
+		select {
+		case m.storing <- key:
+		default:
+		}
+		deadline := time.Now().Add(3 * time.Second)
+		for time.Now().Before(deadline) {
+			m.mu.Lock()
+			l := m.loads[key] - loads0
+			m.mu.Unlock()
+			if l > 0 || m.parked(key) >= m.need {
+				break
+			}
+			time.Sleep(100 * time.Microsecond)
+		}
+	}
+	m.c.LoadOrStore(key, cache.NewElement(cp, time.Now().Add(client.ExchangeLifetime), nil))
+	return nil
+}
+
+func (m *c05YieldCache) CheckExpirations(now time.Time) { m.c.CheckExpirations(now) }
+
+// lookups: how often the cache was consulted for key (every copy of a CON/NON request does it once)
+func (m *c05YieldCache) lookups(key string) int {
+	m.mu.Lock()
+	defer m.mu.Unlock()
+	return m.loads[key]
+}
+
+// runC05ConcurrentM: mode "" as described above. Modes "w" and "a" (one request only): the response cache is a
+// c05YieldCache, i.e. the reply of the first copy is being stored for a while after its handler returned.
+// "w": as "", the other copies wait for the lock when the first handler returns. "a": the handler is not held;
+// the other copies arrive when the Store of the first copy's reply has begun.
+func runC05ConcurrentM(reqs []c05Ev, copies []int, getMID int32, dtls bool, mode string) (string, bool) {
+	var yc *c05YieldCache
+	var copts []client.Option
+	if mode != "" {
+		yc = &c05YieldCache{c: cache.NewCache[string, []byte](), loads: map[string]int{}, storing: make(chan string, 1), need: copies[0]}
+		copts = append(copts, client.WithResponseMessageCache(yc))
+	}
+	mc := newMemConn(memConnOpts{getMID: getMID, queueSize: 16, maxRetransmit: 4, perMessageGoroutine: true, dtls: dtls, opts: copts})
 	defer mc.close()
+	if yc != nil {
+		yc.parked = func(key string) int {
+			var k int
+			if _, err := fmt.Sscanf(key, "%d", &k); err != nil {
+				return 0
+			}
+			return mc.cc.VerifMsgIDLockCount(int32(k))
+		}
+	}
 	own0 := mc.cc.VerifMsgID()
 	total := 0
 	for _, k := range copies {
@@ -506,6 +606,9 @@ func runC05Concurrent(reqs []c05Ev, copies []int, getMID int32, dtls bool) (stri
 	}
 	mc.mu.Unlock()
 	ok := true
+	if mode == "a" {
+		close(gate) // the handlers are not held
+	}
 	// first copies: wait until each one is inside the handler
 	for _, ev := range reqs {
 		mc.inject(encodeWire(ev.Typ, ev.Code, ev.MID, ev.Tok, ev.ReqOpts, nil))
@@ -515,6 +618,23 @@ func runC05Concurrent(reqs []c05Ev, copies []int, getMID int32, dtls bool) (stri
 		case <-entered:
 		case <-time.After(3 * time.Second):
 			ok = false
+		}
+	}
+	if mode == "a" {
+		// the other copies arrive when the reply of the first one is being stored (or, when nothing is
+		// stored for it - a non-confirmable request that got no reply -, when it has been processed)
+		deadline := time.Now().Add(3 * time.Second)
+	waitStore:
+		for {
+			select {
+			case <-yc.storing:
+				break waitStore
+			default:
+			}
+			if mc.cc.VerifMsgIDLockCount(int32(reqs[0].MID)) == 0 || time.Now().After(deadline) {
+				break
+			}
+			time.Sleep(100 * time.Microsecond)
 		}
 	}
 	for i, ev := range reqs {
@@ -533,10 +653,24 @@ func runC05Concurrent(reqs []c05Ev, copies []int, getMID int32, dtls bool) (stri
 		return n
 	}
 	deadline := time.Now().Add(3 * time.Second)
-	for lockCount()+len(entered) < total && time.Now().Before(deadline) {
+	for mode != "a" && lockCount()+len(entered) < total && time.Now().Before(deadline) {
 		time.Sleep(200 * time.Microsecond)
 	}
-	close(gate)
+	if mode != "a" {
+		close(gate)
+	}
+	if mode == "a" {
+		// the copies were not parked before: every one of them has consulted the cache (then it holds its lock
+		// or is past it; the quiescence check below waits for the rest)
+		deadline = time.Now().Add(3 * time.Second)
+		for yc.lookups(fmt.Sprint(reqs[0].MID)) < copies[0] {
+			if time.Now().After(deadline) {
+				ok = false
+				break
+			}
+			time.Sleep(100 * time.Microsecond)
+		}
+	}
 	expected := 0
 	for i, ev := range reqs {
 		expected += expectedReplies(ev, copies[i])
@@ -966,7 +1100,7 @@ func runC05(a runArgs) error {
 	e := NewEmitter("C05", "Dedup.Run")
 	e.Preamble = "From GoCoap Require Import Base.Bytes Dedup.Model Dedup.Spec."
 	e.ShardSize = 120
-	e.Rule = "histories of 3-12 events on a fresh udp/client.Conn over an in-memory session and (a sample; ten times as many in the thorough tier) over a real dtls/server.Session on a scripted net.Conn: CON/NON requests (message IDs from a small pool incl. 0, 65535 and IDs near the connection's own counter; random tokens; optional No-Response option) with handler behaviours none / response(code incl. Empty, options, payload) / replaced response message (w.SetMessage, own token) / Reset, request-monitor drops, pings, messages sent by the application (separate responses, CON acknowledged by the harness / NON), interleaved with Age (virtual time shifts of the response cache around the 247 s lifetime, never within 300 ms of a boundary) and housekeeping ticks; plus concurrent families (one goroutine per received message): 2-4 copies of one request, and 2-3 copies each of two or three confirmable requests with different message IDs, first handlers held until all other copies wait on their locks; request methods beyond GET..DELETE (FETCH, PATCH, iPATCH and other codes 0.08-0.31) in histories, concurrent copies and witnesses; message IDs used again after the lifetime while a housekeeping sweep stands between examining (or fetching) the expired reply and removing it (forced at the yield points of the sweep), followed by copies of the new requests at 0 s / 246 s / 248 s. Distinct = distinct history; non-trivial = contains a duplicate (same message ID twice)."
+	e.Rule = "histories of 3-12 events on a fresh udp/client.Conn over an in-memory session and (a sample; ten times as many in the thorough tier) over a real dtls/server.Session on a scripted net.Conn: CON/NON requests (message IDs from a small pool incl. 0, 65535 and IDs near the connection's own counter; random tokens; optional No-Response option) with handler behaviours none / response(code incl. Empty, options, payload) / replaced response message (w.SetMessage, own token) / Reset, request-monitor drops, pings, messages sent by the application (separate responses, CON acknowledged by the harness / NON), interleaved with Age (virtual time shifts of the response cache around the 247 s lifetime, never within 300 ms of a boundary) and housekeeping ticks; plus concurrent families (one goroutine per received message): 2-4 copies of one request, and 2-3 copies each of two or three confirmable requests with different message IDs, first handlers held until all other copies wait on their locks; request methods beyond GET..DELETE (FETCH, PATCH, iPATCH and other codes 0.08-0.31) in histories, concurrent copies and witnesses; message IDs used again after the lifetime while a housekeeping sweep stands between examining (or fetching) the expired reply and removing it (forced at the yield points of the sweep), followed by copies of the new requests at 0 s / 246 s / 248 s; 2-4 copies of one request processed concurrently on a connection with an application-supplied response cache whose Store takes a while (returns on a witness: all copies hold or wait for the per-message-ID lock, or a copy consulted the cache), the other copies waiting for the lock when the first handler returns or arriving while the reply is being stored. Distinct = distinct history; non-trivial = contains a duplicate (same message ID twice)."
 	rng := NewRng(a.seed)
 
 	emitOn := func(evs []c05Ev, getMID int32, dtls bool) {
@@ -1030,22 +1164,27 @@ func runC05(a runArgs) error {
 	}
 	emit := func(evs []c05Ev, getMID int32) { emitOn(evs, getMID, false) }
 
-	emitConc := func(reqs []c05Ev, copies []int, getMID int32, dtls bool) {
-		txt, ok := runC05Concurrent(reqs, copies, getMID, dtls)
+	var emitConcM func(reqs []c05Ev, copies []int, getMID int32, dtls bool, mode string)
+	emitConc := func(reqs []c05Ev, copies []int, getMID int32, dtls bool) { emitConcM(reqs, copies, getMID, dtls, "") }
+	emitConcM = func(reqs []c05Ev, copies []int, getMID int32, dtls bool, mode string) {
+		txt, ok := runC05ConcurrentM(reqs, copies, getMID, dtls, mode)
 		if !ok {
-			txt, ok = runC05Concurrent(reqs, copies, getMID, dtls)
+			txt, ok = runC05ConcurrentM(reqs, copies, getMID, dtls, mode)
 		}
 		if !ok {
 			e.Hist["concurrent_timeout"]++
 		}
 		parts := make([]string, 0, 2*len(reqs))
 		for i, ev := range reqs {
-			parts = append(parts, fmt.Sprintf("conc:%d", copies[i]), ev.desc())
+			parts = append(parts, fmt.Sprintf("conc%s:%d", mode, copies[i]), ev.desc())
 		}
 		desc := fmt.Sprintf("%d|%s", getMID, strings.Join(parts, " "))
 		bucket := "concurrent"
 		if len(reqs) > 1 {
 			bucket = "concurrent-mixed"
+		}
+		if mode != "" {
+			bucket = "concurrent-store-" + mode
 		}
 		for _, ev := range reqs {
 			if ev.Use != "" {
@@ -1066,13 +1205,19 @@ func runC05(a runArgs) error {
 		parts := strings.SplitN(only, "|", 2)
 		fmt.Sscanf(parts[0], "%d", &getMID)
 		fields := strings.Fields(parts[1])
-		if strings.Contains(only, "conc:") {
+		if strings.Contains(only, "conc:") || strings.Contains(only, "concw:") || strings.Contains(only, "conca:") {
 			var reqs []c05Ev
 			var copies []int
 			k := 1
+			mode := ""
 			for _, f := range fields {
 				if strings.HasPrefix(f, "conc:") {
 					fmt.Sscanf(f, "conc:%d", &k)
+					continue
+				}
+				if strings.HasPrefix(f, "concw:") || strings.HasPrefix(f, "conca:") {
+					mode = f[4:5]
+					fmt.Sscanf(f[6:], "%d", &k)
 					continue
 				}
 				ev := parseC05Ev(f)
@@ -1083,8 +1228,14 @@ func runC05(a runArgs) error {
 				copies = append(copies, k)
 				k = 1
 			}
+			if mode != "" && len(reqs) > 0 {
+				reqs, copies = reqs[:1], copies[:1]
+				if copies[0] < 2 {
+					copies[0] = 2 // a copy is what the case is about (the shrinker may have dropped the count)
+				}
+			}
 			if len(reqs) > 0 {
-				emitConc(reqs, copies, getMID, dtls)
+				emitConcM(reqs, copies, getMID, dtls, mode)
 			}
 			return e.Flush(a.out)
 		}
@@ -1096,6 +1247,20 @@ func runC05(a runArgs) error {
 		return e.Flush(a.out)
 	}
 
+	// canonical witnesses of the concurrent-store families (see the end of this function; no random draws, and put
+	// first so that the case reported for a violation of the lock discipline is a deterministic one)
+	for _, mode := range []string{"w", "a"} {
+		for _, typ := range []int{0, 1} {
+			for _, beh := range []string{"resp", "none", "msg", "rst"} {
+				r := c05Ev{Kind: "req", Typ: typ, MID: 0x4321, Tok: []byte{0xa, 0xb, 0xc}, Code: 1, Beh: beh, RCode: 69, PLen: 5, PSalt: 9, MTok: []byte{0xcc}}
+				if beh == "rst" || beh == "none" {
+					r.RCode, r.PLen, r.PSalt = 0, 0, 0
+				}
+				emitConcM([]c05Ev{r}, []int{2}, 0x1000, false, mode)
+				emitConcM([]c05Ev{r}, []int{3}, 0x1000, false, mode)
+			}
+		}
+	}
 	// structured histories: the original event set, and the extended one
 	n, nx := 300, 420
 	if a.tier == "thorough" {
@@ -1288,6 +1453,22 @@ func runC05(a runArgs) error {
 			for _, pt := range []string{"x", "r"} {
 				emit([]c05Ev{r1, r1, {Kind: "age", Ms: 248000}, {Kind: "sweep", Pt: pt, Inner: []c05Ev{r2}}, r2, {Kind: "age", Ms: 246000}, r2, {Kind: "age", Ms: 2000}, r2}, 0x1000)
 			}
+		}
+	}
+	// ---- copies processed concurrently while the reply of the first one is being stored (drawn after everything else) ----
+	// the response cache is one supplied by the application whose Store takes a while (c05YieldCache); "w": the
+	// other copies wait for the per-message-ID lock when the first handler returns, "a": they arrive during the Store
+	nstore, nstoreDtls := 20, 3
+	if a.tier == "thorough" {
+		nstore, nstoreDtls = 150, 20
+	}
+	for _, mode := range []string{"w", "a"} {
+		for c := 0; c < nstore+nstoreDtls; c++ {
+			ev, getMID := firstReq(c%2 == 1, false, nil)
+			if c%3 == 2 {
+				ev.Code = c05MethodCodes[c%9]
+			}
+			emitConcM([]c05Ev{ev}, []int{2 + rng.Intn(3)}, getMID, c >= nstore, mode)
 		}
 	}
 	return e.Flush(a.out)
